@@ -365,6 +365,30 @@ def run(ctx):
         ctx.check(ok and len(rets_) == 1 and guarded, "R01.5", f, "whole-name-accessor:" + acc,
                   "%s() returns %s%s: it must be the entire name behind the %d-character prefix, otherwise names that merely share a part with a declared name match" % (acc, txt, "" if guarded else " without testing %s()" % guard, k), f,
                   why_ok="%s -> name[%d:]" % (acc, k))
+    # ---- R01.11: the token an option swallows as its value is a value token
+    ctx.rule("R01.11", "a value-taking option consumes a FOLLOWING token only when that token is a value token (does not start with a dash): "
+                       "an option-like token is never swallowed unexamined")
+    n11 = 0
+    tpos = [f for f in prog.find(NS + "parser::try_parse_as_option") if f.has_cfg]
+    fe11 = facts.FactsEngine(prog, cg)
+    for f in tpos:
+        itp = f.params[1]["name"] if len(f.params) >= 2 else "it"
+        IN, before = fe11.analyse(f)
+        for bid in IN:
+            for i, e in enumerate(f.elems(bid)):
+                for n in elem_calls(e):
+                    if not is_update_call(n) or not n.get("args"):
+                        continue
+                    a = logic.canon(n["args"][0])
+                    if a in ("(*%s)" % itp, "*%s" % itp):
+                        continue
+                    n11 += 1
+                    ok, cm = fe11.proves(f, bid, i, Not(("a", "(%s.name_[0] == '-')" % a)))
+                    ctx.check(ok, "R01.11", f, "swallowed-token-is-a-value:%s" % a,
+                              "update_value(%s) at line %s is reachable for a token that starts with a dash [known: %s]: an option waiting for its value swallows the following "
+                              "option-like token (`--output --unknown=5`), whose name is never looked at" % (a, n.get("ln"), [logic.show(g) for g in before.get((bid, i), [])][:6]),
+                              (f, n.get("ln")), why_ok="!(%s starts with '-')" % a)
+    ctx.need("R01.11", "look-ahead update_value sites (both instantiations)", n11, 2)
     # ---- R01.9: what a token set is still there when parse() returns - check() consults environment/default only when the
     # command line gave nothing (C03's R03.1 re-evaluated for all three kinds)
     ctx.rule("R01.9", "a consumed token's effect is not overwritten after the loop: check() leaves command-line values alone (R03.1 re-evaluated)")
@@ -506,9 +530,15 @@ def _letter_accounting(tt):
             others = []
             for x in conj:
                 bo = ir.as_binop(x)
-                sides = [fmt(ir.unwrap(bo[1])), fmt(ir.unwrap(bo[2]))] if bo and bo[0] in ("!=", "==") else []
+                sides = [fmt(ir.unwrap(bo[1])), fmt(ir.unwrap(bo[2]))] if bo and bo[0] in ("!=", "==", "<", ">", "<=", ">=") else []
                 if sides and name in sides and any(re.fullmatch(r".*\.as_short_list\(\)\.size\(\)", s0) for s0 in sides):
-                    cmpn = bo
+                    # normalise to `acc OP size`; the accumulator can never exceed the number of letters, so `acc < size` is the
+                    # mismatch as well, while `acc > size` can never hold
+                    op = bo[0] if sides[0] == name else {"<": ">", ">": "<", "<=": ">=", ">=": "<="}.get(bo[0], bo[0])
+                    if op in (">", "<="):
+                        return (False, "the guard at line %s tests `%s %s %s`: the matched letters can never exceed the letters of the bundle, so it %s and undeclared letters of a bundle are dropped"
+                                % (tt.term(b).get("ln"), sides[0], bo[0], sides[1], "never fires" if op == ">" else "is always true"))
+                    cmpn = ({"<": "!=", ">=": "=="}.get(op, op), bo[1], bo[2])
                 else:
                     others.append(x)
             if cmpn is None:
